@@ -49,11 +49,24 @@ func scalarCanon(out []byte, it *simdjson.Iter, typ simdjson.Type) ([]byte, erro
 		if err != nil {
 			return out, fmt.Errorf("Int(): %v", err)
 		}
+		// cross-type reads of the same entry
+		if u, uerr := it.Uint(); (uerr == nil) != (v >= 0) || (uerr == nil && u != uint64(v)) {
+			return out, fmt.Errorf("Uint() on the int %d = %d, %v", v, u, uerr)
+		}
+		if f, ferr := it.Float(); ferr != nil || f != float64(v) {
+			return out, fmt.Errorf("Float() on the int %d = %v, %v", v, f, ferr)
+		}
 		return canonNum(out, 'i', uint64(v), false, canonOpts{}), nil
 	case simdjson.TypeUint:
 		v, err := it.Uint()
 		if err != nil {
 			return out, fmt.Errorf("Uint(): %v", err)
+		}
+		if i, ierr := it.Int(); (ierr == nil) != (v <= 1<<63-1) || (ierr == nil && uint64(i) != v) {
+			return out, fmt.Errorf("Int() on the uint %d = %d, %v", v, i, ierr)
+		}
+		if f, ferr := it.Float(); ferr != nil || f != float64(v) {
+			return out, fmt.Errorf("Float() on the uint %d = %v, %v", v, f, ferr)
 		}
 		return canonNum(out, 'u', v, false, canonOpts{}), nil
 	case simdjson.TypeFloat:
